@@ -319,7 +319,23 @@ func (ef *EnumFlow) refineEdge(b *ssa.BasicBlock, si int, base ssa.Value, st Enu
 	if ifi == nil {
 		return st
 	}
-	f := CondFact(ifi.Cond)
+	st = ef.refineFact(CondFact(ifi.Cond), si, base, st, universe)
+	// a short-circuit condition evaluated as a value (ended := s == A || s == B; if ended ..): on the edge that
+	// determines every operand, each operand refines the state as its own branch would
+	if edge, parts, ok := LogicalParts(ifi); ok && si == edge {
+		for _, p := range parts {
+			psi := 1
+			if p.Truth {
+				psi = 0
+			}
+			st = ef.refineFact(CondFact(p.V), psi, base, st, universe)
+		}
+	}
+	return st
+}
+
+// refineFact applies one condition fact on the edge si (0: the condition is true) of its branch.
+func (ef *EnumFlow) refineFact(f Fact, si int, base ssa.Value, st EnumSet, universe map[string]bool) EnumSet {
 	// helper postcondition: if !h(.., base, ..).Ok / err != nil ...
 	if ef.Post != nil {
 		if call, idx := CallOf(f.Subject); call != nil {
